@@ -107,6 +107,7 @@ def run(ctx):
     c19.check_guards(sub5, fb)
     c19.check_intdiv(sub5, fb)
     c19.check_ring_ops(sub5, fb)
+    c19.check_conversions(sub5, fb)
     for r in sub5.results:
         (ctx.ok if r.status == "ok" else ctx.fail)("R05-5", r.instance, r.reason, r.loc)
     # ---- R05-2 order independence of placement (rule shared with C20)
